@@ -10,12 +10,13 @@ struct Case {
   std::string location, needle;       // kind 2
   int opt = 0;
   bool with_query = false;
-  template <class A> void io(A &a) { a(kind)(comps)(trailing_slash)(tree)(location)(needle)(opt)(with_query); }
+  int spare = 99;                     // kind 2: max_ports = size of the largest table (the documented minimum; +1 for the echoed query) + spare (99: +2, as older case files)
+  template <class A> void io(A &a) { a(kind)(comps)(trailing_slash)(tree)(location)(needle)(opt)(with_query); if (a.more()) a(spare); }
   std::string path() const { std::string p; for (auto &c : comps) p += "/" + c; if (trailing_slash) p += "/"; return p; }
   std::string describe() const {
     if (kind == 0) return "collapse \"" + path() + "\"";
     if (kind == 1) return "apropos over " + tree.describe();
-    return "path_search(location=\"" + location + "\", needle=\"" + needle + "\", opt=" + std::to_string(opt) + ", query=" + std::to_string(with_query) + ") over " + tree.describe();
+    return "path_search(location=\"" + location + "\", needle=\"" + needle + "\", opt=" + std::to_string(opt) + ", query=" + std::to_string(with_query) + ", spare=" + std::to_string(spare) + ") over " + tree.describe();
   }
 };
 const char *vf_property() { return "C18"; }
@@ -66,7 +67,14 @@ Case vf_generate() {
     if (!p.subtree()) { size_t s = p.name.find('/'); if (s != std::string::npos && p.name.find('#') == std::string::npos) p.name.erase(s, 1); }
     p.meta = gen_meta();
   }
-  if (c.kind == 1) { make_prefix_free(c.tree); return c; }
+  if (c.kind == 1) {
+    // enumerated sub-trees whose pattern text is longer than addresses it matches ("v#16/" vs "v3/x"): the lookup does not
+    // need the objects, so the index range may exceed what the instance holds
+    for (auto &tb : c.tree.tables) for (auto &p : tb.ports)
+      if ((p.kind == pt::RECURS || p.kind == pt::RECURSP) && vf::chance(35)) { size_t h = p.name.find('#'); p.name = p.name.substr(0, h + 1) + std::to_string(vf::oneof<int>({10, 16, 100})) + "/"; }
+    make_prefix_free(c.tree);
+    return c;
+  }
   // kind 2: location = "", "/", or a sub-tree / leaf address of the tree; needle = prefix of some child name or arbitrary
   int lk = vf::pickn(6);
   if (lk == 0) c.location = "";
@@ -91,6 +99,7 @@ Case vf_generate() {
   c.needle = vf::chance(40) ? "" : vf::strover("abc", 0, 2);
   c.opt = vf::pickn(3);
   c.with_query = vf::coin();
+  c.spare = vf::oneof<int>({0, 0, 1, 2, 99});
   return c;
 }
 
@@ -192,6 +201,7 @@ static std::string run_search(const Case &c, vf::Ctx &ctx) {
   };
   if (children) for (auto &p : children->ports) add(p);
   else if (single) add(*single);
+  const size_t matched = exp.size();   // entries the search collects (before names below a 'name/' entry are removed)
   if (c.opt >= 1) std::stable_sort(exp.begin(), exp.end(), [](const E &a, const E &b) { return a.name < b.name; });
   if (c.opt == 2) {
     std::vector<E> kept;
@@ -210,6 +220,13 @@ static std::string run_search(const Case &c, vf::Ctx &ctx) {
   size_t maxports = 1;
   for (auto &tb : c.tree.tables) maxports = std::max(maxports, tb.ports.size());
   maxports += 2;
+  // the documented minimum ("maximum number (or higher) of child ports in any of your app's ports", one more entry for the
+  // echoed query) and one or two spare entries: the reply has to be well-formed at every admissible capacity
+  if (c.spare != 99) {
+    maxports = maxports - 2 + (c.with_query ? 1 : 0) + (size_t)c.spare;
+    ctx.count("search.max_ports_spare" + std::to_string(c.spare));
+    if (matched + (c.with_query ? 1 : 0) == maxports) ctx.count("search.reply_fills_max_ports_exactly");
+  }
   std::vector<char> out(1 << 16);
   rtosc::path_search_opts o = c.opt == 0 ? rtosc::path_search_opts::unmodified : c.opt == 1 ? rtosc::path_search_opts::sorted : rtosc::path_search_opts::sorted_and_unique_prefix;
   size_t len = rtosc::path_search(inst.rootports(), q.msg(), maxports, out.data(), out.size(), o, c.with_query);
